@@ -42,6 +42,18 @@ def cases(ctx):
                     e["locking"] = gen.gen_script(r, r.choice([0, 1, 5, 12]), minimal=r.random() < 0.5, push_lens=[0, 1, 20, 33, 76]).hex()
                 ext.append(e or None)
         yield {"k": "tx", "tx": wire.tx_encode(tx).hex(), "ext": ext}
+        if i % 5 == 0 and tx["ins"]:
+            # scripts handed over as element lists in which a balanced conditional is kept as FLAT opcodes (possible through
+            # from_script_bits / push): same wire bytes as the nested form, different element list
+            flat = r.choice([[{"op": 81}, {"op": 99}, {"op": 82}, {"op": 104}], [{"op": 99}, {"op": 104}], [{"op": 0}, {"op": 100}, {"op": 97}, {"op": 103}, {"op": 81}, {"op": 104}, {"push": "aabb"}],
+                             [{"op": 81}, {"op": 99}, {"op": 99}, {"op": 104}, {"op": 104}], [{"push": "01"}, {"op": 99}, {"if": 99, "pass": [{"op": 81}], "fail": None}, {"op": 104}]])
+            c2 = {"k": "tx", "tx": wire.tx_encode(tx).hex(), "ext": ext, "flat": True}
+            if not wire.is_coinbase_in(tx["ins"][0]):
+                c2["in_bits"] = {"0": flat}
+            if tx["outs"]:
+                c2["out_bits"] = {str(len(tx["outs"]) - 1): flat}
+            if "in_bits" in c2 or "out_bits" in c2:
+                yield c2
         for i_, e in zip(tx["ins"], ext):
             c = {"k": "txin", "in": {"txid": i_["txid_wire"][::-1].hex(), "vout": i_["vout"], "script": i_["script"].hex(), "coinbase": wire.is_coinbase_in(i_), "seq": i_["seq"]}}
             if e:
@@ -94,7 +106,13 @@ def judge(ctx, case):
                 ctx.hit("conditional")
             if any(t[0] == "pd" and not t[2] for t in tk):
                 ctx.hit("empty_pushdata")
-        r = ctx.call({"op": "tx_codec", "tx": case["tx"], "ext": case["ext"]})
+        rq = {"op": "tx_codec", "tx": case["tx"], "ext": case["ext"]}
+        if case.get("flat"):
+            ctx.hit("flat_conditional_elements")
+            for f in ("in_bits", "out_bits"):
+                if f in case:
+                    rq[f] = case[f]
+        r = ctx.call(rq)
         if "ok" not in r:
             ctx.ev()
             ctx.viol("extended transaction could not be set up / encoded", {"resp": str(r)[:300]})
@@ -114,6 +132,10 @@ def judge(ctx, case):
                 else:
                     ctx.viol("%s round trip of a %s: %s" % (fmt, kind, why), {"via": via, "resp": str(a)[:300]})
                 continue
+            if a["ok"].get("script_bits_eq") is False:
+                ctx.viol("%s round trip of a %s changes the element list of a script (%s)" % (fmt, kind, "flat conditional opcodes" if case.get("flat") else "parsed script"), {"via": via})
+            elif a["ok"].get("partial_eq") is False and not diff(before, a["ok"]):
+                ctx.viol("%s round trip of a %s: the decoded object is not == the original although every accessor agrees" % (fmt, kind), {"via": via})
             d = diff(before, a["ok"])
             if d:
                 coin_only = cb and all(x in ("bytes", "id", "size", "in.script", "in.script2", "in.script_size") for x in d)
